@@ -386,8 +386,8 @@ func (m *matcher) findMatches(known *knownValue) {
 				}
 				// The occurrence ends with the first token that reaches its end;
 				// for a one-token occurrence that is the token it starts with.
+				end = i
 				if tok.Offset >= a[len(a)-1]-len(tok.Text) {
-					end = i
 					break
 				}
 			}
